@@ -5,6 +5,11 @@
  *                                     if mask&1: write n pattern bytes (seed) to stdout; if mask&2: n pattern bytes
  *                                     (seed+1) to stderr; return <code>
  *   @pause                            sleep until killed
+ *   @late <mask> <ms> <code> <marker> wait <ms> milliseconds, write one short line to stdout (mask&1) and to stderr
+ *                                     (mask&2) (SIGPIPE at its default: a pipe without reader kills the child; a failed
+ *                                     write gives exit code 99), create the file <marker>, return <code>
+ *   @spam <mask>                      write to stdout (mask&1) / stderr (mask&2) without end (blocks when the pipe is full)
+ *   @raise <signal>                   terminate by the signal
  *   anything else                     echo: `argv <hex>...` and `env <hex>...` (the whole environment, in the order
  *                                     received) on stdout; return 42
  */
@@ -12,6 +17,8 @@
 #include <stdlib.h>
 #include <string.h>
 #include <unistd.h>
+#include <signal.h>
+#include <fcntl.h>
 extern char** environ;
 
 static unsigned crcTable[256];
@@ -67,6 +74,44 @@ int main(int argc, char** argv)
   {
     for(;;)
       pause();
+  }
+  if(argc > 5 && !strcmp(argv[1], "@late"))
+  {
+    unsigned mask = (unsigned)atoi(argv[2]);
+    signal(SIGPIPE, SIG_DFL); // the harness ignores SIGPIPE and that would be inherited
+    usleep((useconds_t)atoi(argv[3]) * 1000);
+    static const char line[] = "late line from the child\n";
+    for(int s = 0; s < 2; ++s)
+      if(mask & (1u << s))
+        if(write(s + 1, line, sizeof(line) - 1) != (ssize_t)(sizeof(line) - 1))
+          return 99;
+    int fd = open(argv[5], O_CREAT | O_WRONLY, 0600);
+    if(fd >= 0)
+      close(fd);
+    return atoi(argv[4]);
+  }
+  if(argc > 2 && !strcmp(argv[1], "@spam"))
+  {
+    unsigned mask = (unsigned)atoi(argv[2]);
+    static char block[4096];
+    memset(block, 'x', sizeof(block));
+    for(;;)
+    {
+      if(mask & 1)
+        if(write(1, block, sizeof(block)) < 0)
+          return 98;
+      if(mask & 2)
+        if(write(2, block, sizeof(block)) < 0)
+          return 98;
+      if(!(mask & 3))
+        pause();
+    }
+  }
+  if(argc > 2 && !strcmp(argv[1], "@raise"))
+  {
+    signal(atoi(argv[2]), SIG_DFL);
+    raise(atoi(argv[2]));
+    return 97;
   }
   if(argc > 5 && !strcmp(argv[1], "@io"))
   {
